@@ -68,7 +68,16 @@ def run_task(task):
             if tracer:
                 tracer.__enter__()
             try:
-                sc.fn(ctx, **params)
+                try:
+                    sc.fn(ctx, **params)
+                except state.UnexpectedFork as e0:
+                    if 'outside an explorer' not in str(e0):
+                        raise
+                    # the code under test branched on a symbolic value where the scenario did not expect it (e.g. a changed /repo that
+                    # tests `x == 0`): explore the WHOLE scenario path by path instead of giving up
+                    state.reset()
+                    ctx = core.Ctx('sym', R, params, seed=seed, timeout_ms=opts.get('timeout_ms', 60000), tier=tier)
+                    ctx.explore('automatic whole-scenario exploration (%s)' % (str(e0)[:120],), lambda: sc.fn(ctx, **params), cap=48)
             finally:
                 if tracer:
                     tracer.__exit__()
